@@ -425,6 +425,9 @@ func init() {
 			if c.Scen == c19PrimPlan().Name {
 				return c19PrimPlan().Worker(c)
 			}
+			if c.Scen == c19WaitPlan().Name {
+				return c19WaitPlan().Worker(c)
+			}
 			return p.Worker(c)
 		}
 		if len(c.Args) == 2 && c.Args[0] == "--replay" {
@@ -440,6 +443,10 @@ func init() {
 			return EngineError("%s", sum.EngineErr)
 		}
 		c19PrimPlan().Master(c, sum)
+		if sum.EngineErr != "" {
+			return EngineError("%s", sum.EngineErr)
+		}
+		c19WaitPlan().Master(c, sum)
 		if sum.EngineErr != "" {
 			return EngineError("%s", sum.EngineErr)
 		}
